@@ -36,7 +36,14 @@ def gen_npy(rng):
     vals = GS.values(rng, O.prod(shape), "int")
     if descr[1:] == "u2":
         vals = [v % 60000 for v in vals]
-    return shape, descr, GS.npy_bytes(shape, vals, descr, version=rng.choice([(1, 0), (1, 0), (2, 0), (3, 0)]))
+    data = GS.npy_bytes(shape, vals, descr, version=rng.choice([(1, 0), (1, 0), (2, 0), (3, 0)]))
+    if rng.random() < 0.3:
+        # the same array under a hand-spelled header that names 'shape' and 'descr' twice (the last occurrence counts): cutting or
+        # extending the file must not make an earlier, wrong occurrence fit
+        from ..oracle import npyfmt
+        parsed = npyfmt.parse(data)
+        data = npyfmt.build(npyfmt.spell(descr, False, shape, "repeated-key"), parsed["payload"], parsed["version"])
+    return shape, descr, data
 
 
 def check_npy(S, p):
@@ -204,6 +211,11 @@ def text_edits(rng, shape, toks):
         if len(rows[k_]) > 1:
             yield "wrapped over %d lines, one token of line %d missing" % (len(rows), k_), text_of(rows[:k_] + [rows[k_][1:]] + rows[k_ + 1:])
         yield "wrapped over %d lines, one token added to line %d" % (len(rows), k_), text_of(rows[:k_] + [rows[k_] + [toks[0]]] + rows[k_ + 1:])
+    # something that is not a number on a line of its own (a comment in another tool's style), alone or followed by further values
+    for marker in ("## note", "# x", "##", "// c", "NA", "#SHAPE=<%s>" % "/".join(map(str, shape))):
+        yield "complete values, then a line %r" % marker, (head + " ".join(toks) + "\n" + marker + "\n").encode()
+        yield "complete values, then a line %r and more values" % marker, (head + " ".join(toks) + "\n" + marker + "\n" + " ".join(toks[:max(1, n // 2)]) + "\n").encode()
+        yield "a line %r between the header and the values" % marker, (head + marker + "\n" + " ".join(toks) + "\n").encode()
     yield "no values", head.encode()
     yield "half the values", (head + " ".join(toks[:n // 2]) + "\n").encode()
     yield "the other half of the values", (head + " ".join(toks[n // 2:]) + "\n").encode()
